@@ -355,3 +355,179 @@ def all_ops(u):
         mutating_pp(u, trait, "&Polynomial<N>", True)
     scalar_scale(u)
     product(u)
+
+
+# ---------------------------------------------------------------------------
+# contracts of the inherent Polynomial methods (C13); re-verified wherever they are called
+HSD_SPEC = r"""
+pub open spec fn rmaxi2(a: int, b: int) -> int { if a >= b { a } else { b } }
+// Horner accumulator for the derivative:  sum_{k>=m} (k-m+1) c_k x^(k-m)
+pub open spec fn hsd(s: Seq<R>, m: int, x: real) -> real
+    decreases s.len() - m
+{ if m < 0 || m >= s.len() { 0real } else { hs(s, m, x) + x * hsd(s, m + 1, x) } }
+"""
+
+
+def add_basic(u, names=None):
+    """inherent methods of Polynomial under their C13 contracts; names=None -> all"""
+    from vx.rules import COPIED
+    want = lambda n: names is None or n in names
+    im = u.impl(PFILE, "Polynomial<N>", header="impl Polynomial")
+    if want("new"):
+        f = im.fn("new")
+        f.ens("res.wf()", "res.coefficients@.len() == 1", "res.c(0) == 0real", "res.tolerance@ == 1real / 10000000000real")
+    if want("with_tolerance"):
+        f = im.fn("with_tolerance")
+        f.ens("tolerance@ < 0real ==> res is Err",
+              "res is Ok ==> res->Ok_0.coefficients@.len() == 1 && res->Ok_0.c(0) == 0real && res->Ok_0.tolerance == tolerance")
+    if want("from_slice"):
+        f = im.fn("from_slice").opt(subst=COPIED)
+        f.ens("res.wf()",
+              "data@.len() == 0 ==> res.coefficients@.len() == 1 && res.c(0) == 0real",
+              "data@.len() > 0 ==> res.coefficients@ == data@.reverse()")
+    if want("order"):
+        f = im.fn("order")
+        f.req("self.wf()").ens("res == self.coefficients@.len() - 1")
+    if want("get_coefficients"):
+        f = im.fn("get_coefficients")
+        f.ens("res@ == self.coefficients@.reverse()")
+    if want("get_coefficient"):
+        f = im.fn("get_coefficient")
+        f.ens("res@ == self.c(ind as int)")
+    if want("evaluate"):
+        f = im.fn("evaluate")
+        f.req("self.wf()").ens("res@ == pval(*self, x@)")
+        f.loop(1, iter="it", invariant=[
+            "it.index@ + 1 <= self.coefficients@.len()",
+            "acc@ == hs(self.coefficients@, self.coefficients@.len() - 1 - it.index@, x@)",
+            "forall|k: int| 0 <= k < it.history@.len() ==> *it.history@[k] == self.coefficients@[self.coefficients@.len() - 2 - k]",
+        ])
+        f.hint("before loop 1", r"""proof {
+            let s = self.coefficients@; let n = s.len() as int;
+            assert(hs(s, n, x@) == 0real);
+            assert(hs(s, n - 1, x@) == s[n - 1]@ + x@ * hs(s, n, x@));
+        }""")
+        f.hint("loop 1 begin", "let ghost acc0 = acc@; let ghost j = self.coefficients@.len() - 1 - it.index@;")
+        f.hint("loop 1 end", r"""proof {
+            let s = self.coefficients@;
+            assert(*val == s[j - 1]);
+            assert(acc0 * x@ == x@ * acc0) by(nonlinear_arith);
+            assert(hs(s, j - 1, x@) == s[j - 1]@ + x@ * hs(s, j, x@));
+        }""")
+    if want("evaluate_derivative"):
+        f = im.fn("evaluate_derivative")
+        f.req("self.wf()")
+        f.ens("res.0@ == pval(*self, x@)",
+              "res.1@ == hsd(self.coefficients@, 1, x@)")
+        f.loop(1, iter="it", invariant=[
+            "self.coefficients@.len() >= 2",
+            "it.index@ + 2 <= self.coefficients@.len()",
+            "acc_eval@ == hs(self.coefficients@, self.coefficients@.len() - 1 - it.index@, x@)",
+            "acc_deriv@ == hsd(self.coefficients@, self.coefficients@.len() - 1 - it.index@, x@)",
+            "forall|k: int| 0 <= k < it.history@.len() ==> *it.history@[k] == self.coefficients@[self.coefficients@.len() - 2 - k]",
+        ])
+        f.hint("before loop 1", r"""proof {
+            let s = self.coefficients@; let n = s.len() as int;
+            assert(hs(s, n, x@) == 0real);
+            assert(hsd(s, n, x@) == 0real);
+            assert(hs(s, n - 1, x@) == s[n - 1]@ + x@ * hs(s, n, x@));
+            assert(hsd(s, n - 1, x@) == hs(s, n - 1, x@) + x@ * hsd(s, n, x@));
+        }""")
+        f.hint("loop 1 begin", "let ghost e0 = acc_eval@; let ghost d0 = acc_deriv@; let ghost j = self.coefficients@.len() - 1 - it.index@;")
+        f.hint("loop 1 end", r"""proof {
+            let s = self.coefficients@;
+            assert(*val == s[j - 1]);
+            assert(e0 * x@ == x@ * e0) by(nonlinear_arith);
+            assert(d0 * x@ == x@ * d0) by(nonlinear_arith);
+            assert(hs(s, j - 1, x@) == s[j - 1]@ + x@ * hs(s, j, x@));
+            assert(hsd(s, j - 1, x@) == hs(s, j - 1, x@) + x@ * hsd(s, j, x@));
+        }""")
+        f.hint("after loop 1", r"""proof {
+            let s = self.coefficients@;
+            assert(hs(s, 0, x@) == s[0]@ + x@ * hs(s, 1, x@));
+        }""")
+        f.hint("before: return (self.coefficients[0]", r"""proof {
+            let s = self.coefficients@;
+            assert(hs(s, 1, x@) == 0real);
+            assert(hs(s, 0, x@) == s[0]@ + x@ * hs(s, 1, x@));
+            assert(hsd(s, 1, x@) == 0real);
+        }""")
+
+    if want("set_coefficient"):
+        f = im.fn("set_coefficient")
+        f.req("old(self).wf()", "power < u32::MAX", "old(self).coefficients@.len() < u32::MAX")
+        f.ens("final(self).wf()",
+              "final(self).c(power as int) == coefficient@",
+              "forall|j: int| j != power ==> final(self).c(j) == old(self).c(j)",
+              "final(self).coefficients@.len() == if old(self).coefficients@.len() > power { old(self).coefficients@.len() } else { power as nat + 1 }",
+              "final(self).tolerance == old(self).tolerance")
+        f.loop(1, invariant=[
+            "self.coefficients@.len() >= old(self).coefficients@.len()",
+            "self.coefficients@.len() <= rmaxi2(old(self).coefficients@.len() as int, power + 1)",
+            "forall|j: int| self.c(j) == old(self).c(j)",
+            "self.tolerance == old(self).tolerance",
+        ], decreases="power + 1 - self.coefficients@.len()")
+
+    if want("purge_coefficient"):
+        f = im.fn("purge_coefficient")
+        f.req("old(self).wf()")
+        f.ens("final(self).wf()",
+              "final(self).c(power as int) == 0real",
+              "forall|j: int| j != power ==> final(self).c(j) == old(self).c(j)",
+              "power >= old(self).coefficients@.len() ==> final(self).coefficients@ == old(self).coefficients@",
+              "final(self).tolerance == old(self).tolerance")
+
+    if want("purge_leading"):
+        f = im.fn("purge_leading")
+        f.req("old(self).wf()")
+        f.ens("final(self).wf()",
+              "final(self).coefficients@.len() <= old(self).coefficients@.len()",
+              "forall|j: int| 0 <= j < final(self).coefficients@.len() ==> final(self).coefficients@[j] == old(self).coefficients@[j]",
+              "forall|j: int| final(self).coefficients@.len() <= j < old(self).coefficients@.len() ==> rabs(old(self).c(j)) <= old(self).tolerance@",
+              "final(self).coefficients@.len() == 1 || rabs(final(self).c(final(self).coefficients@.len() - 1)) > final(self).tolerance@",
+              "final(self).tolerance == old(self).tolerance")
+        f.loop(1, invariant=[
+            "self.wf()", "self.tolerance == old(self).tolerance",
+            "self.coefficients@.len() <= old(self).coefficients@.len()",
+            "forall|j: int| 0 <= j < self.coefficients@.len() ==> self.coefficients@[j] == old(self).coefficients@[j]",
+            "forall|j: int| self.coefficients@.len() <= j < old(self).coefficients@.len() ==> rabs(old(self).c(j)) <= old(self).tolerance@",
+        ], decreases="self.coefficients@.len()")
+
+    if want("derivative"):
+        f = im.fn("derivative")
+        f.opt(subst=[("let mut deriv_coeff =", "let mut deriv_coeff: Vec<R> =", "R10-type-annotation")])
+        f.req("self.wf()")
+        f.ens("res.wf()", "res.tolerance == self.tolerance",
+              "self.coefficients@.len() == 1 ==> res.coefficients@.len() == 1 && res.c(0) == 0real",
+              "self.coefficients@.len() > 1 ==> res.coefficients@.len() == self.coefficients@.len() - 1",
+              "forall|k: int| 0 <= k ==> res.c(k) == (k + 1) as real * self.c(k + 1)")
+        f.loop(1, iter="it", invariant=[
+            "i == it.index@ + 1", "it.index@ + 1 <= self.coefficients@.len()",
+            "deriv_coeff@.len() == it.index@",
+            "forall|k: int| 0 <= k < it.index@ ==> deriv_coeff@[k]@ == (k + 1) as real * self.coefficients@[k + 1]@",
+            "forall|k: int| 0 <= k < it.history@.len() ==> *it.history@[k] == self.coefficients@[k + 1]",
+        ])
+
+    if want("antiderivative"):
+        f = im.fn("antiderivative")
+        f.req("self.wf()", "self.coefficients@.len() < usize::MAX")
+        f.ens("res.wf()", "res.tolerance == self.tolerance",
+              "res.coefficients@.len() == self.coefficients@.len() + 1",
+              "res.c(0) == constant@",
+              "forall|k: int| 0 <= k < self.coefficients@.len() ==> res.c(k + 1) == self.c(k) * (1real / (k + 1) as real)")
+        f.loop(1, iter="it", invariant=[
+            "ind == it.index@", "it.index@ <= self.coefficients@.len()",
+            "coefficients@.len() == it.index@ + 1", "coefficients@[0] == constant",
+            "forall|k: int| 0 <= k < it.index@ ==> coefficients@[k + 1]@ == self.coefficients@[k]@ * (1real / (k + 1) as real)",
+            "forall|k: int| 0 <= k < it.history@.len() ==> *it.history@[k] == self.coefficients@[k]",
+        ])
+
+    if want("integrate"):
+        f = im.fn("integrate")
+        f.req("self.wf()", "self.coefficients@.len() < usize::MAX")
+        f.ens("exists|a: Polynomial| #![trigger a.wf()] a.wf() && a.coefficients@.len() == self.coefficients@.len() + 1 "
+              "&& (forall|k: int| 0 <= k < self.coefficients@.len() ==> a.c(k + 1) == self.c(k) * (1real / (k + 1) as real)) "
+              "&& res@ == pval(a, upper@) - pval(a, lower@)")
+
+
+    return im
